@@ -31,10 +31,29 @@ def audio_values(p, spec, n=None):
   return [sample_value(p, i, spec["dfmt"]) for i in range(spec["len"])]
 
 
+def hot_lines_of(module, func_names):
+  """ Source lines (of the current tree) inside the named functions. """
+  import inspect
+  lines = set()
+  for cls in (module.AudioIO, module.AudioThread):
+    for name, fn in inspect.getmembers(cls, inspect.isfunction):
+      if name in func_names:
+        try:
+          src, start = inspect.getsourcelines(fn)
+        except (OSError, TypeError):
+          continue
+        for off, text in enumerate(src):
+          t = text.strip()
+          if t and t[0] not in "#\"'" and not t.startswith("def "):
+            lines.add(start + off)
+  return sorted(lines)
+
+
 def default_knobs():
   return {"strategy": "random", "sticky_den": 4, "pct_d": 2,
           "pct_horizon": 400, "gap_max": 0, "line_budget": 0, "fair": 64,
-          "stall_den": 0, "late_den": 0, "phase2_seeded": 1}
+          "stall_den": 0, "late_den": 0, "phase2_seeded": 1,
+          "hot_line": None, "hot_budget": 0}
 
 
 class C17(Property):
@@ -75,6 +94,9 @@ class C17(Property):
       __import__("sim.kernel", fromlist=["Decider"]).Decider(seed=1),
       default_knobs(), self.trace_files))
     self.runs_done = 0
+    self.hot_lines = hot_lines_of(self.lio, ["run", "stop", "pause", "play",
+                                             "close", "thread_finished",
+                                             "recording_finished", "rec"])
 
   def budget(self, tier):
     return (70000, 60.0) if tier == "quick" else (12000000, 780.0)
@@ -96,6 +118,10 @@ class C17(Property):
     knobs["stall_den"] = W.pick("stall", [0, 0, 40, 10, 4])
     knobs["late_den"] = W.pick("late", [0, 0, 8, 2])
     knobs["phase2_seeded"] = W.pick("p2", [1, 20, 200])
+    if self.hot_lines and W.chance("hot", 1, 3):
+      knobs["hot_line"] = W.pick("hotline", self.hot_lines)
+      knobs["hot_budget"] = W.pick("hotbudget", [1, 2, 5])
+      knobs["phase2_seeded"] = 200
     wait = bool(W.choose("wait", 2))
     nplayers = W.weighted("nplayers", [(4, 1), (3, 2), (2, 3), (1, 0)])
     script = []
